@@ -314,7 +314,7 @@ def run(tier):
         "real-magnitude inputs are boundary-directed and random samples, not an enumeration; exhaustiveness holds for the scaled TLC model only",
     ]
     model_check(c, tier)
-    n = 7 if tier == "quick" else 90
+    n = 7 if tier == "quick" else 60
     records, summ = harness_records(n, V.seed(), 0 if tier == "quick" else 1)
     tagcount = {}
     judged = judge(c, records, tier, tagcount)
